@@ -67,7 +67,7 @@ class C08(vlib.PropertyCheck):
     id = 'C08'
     family = 'c08'
     harness = 'c08.c'
-    case_timeout = 300
+    case_timeout = 1500   # whole-file run of the harness; a hanging case is cut by its own alarm(1)
     nontrivial_rule = ('argument vectors enumerated exhaustively over token alphabets (every spelling, unknown options, '
                        'missing values, lone "-", "--", "--x=", quoted words) for five option tables and the four '
                        '{preparse, remove_args} settings plus the two-pass sequence; a case is non-trivial when the model '
@@ -85,7 +85,26 @@ class C08(vlib.PropertyCheck):
 
     MANIFEST = dict(
         technique='Rocq theorems about an executable Gallina model of spifopt_parse + extracted-model/implementation correspondence check',
-        text='',   # filled below once the theorems are in place
+        text=('Rocq theorems about a Gallina mirror of spifopt_parse (cursor macros NEXT_ARG/NEXT_LETTER/NEXT_LOOP, lookups, value '
+              'discovery, boolean/abstract/no-value filter, typed handlers, CHECK_BAD with its 8 bit counter, argv compaction) in which '
+              'every character, argv, table and target access is bounds-checked. Proved in full, closed under the global context: '
+              'C08_parse_total_safe (EVERY argv of arbitrary bytes, every table whose value pointers are valid and whose booleans have '
+              'one, all settings: with fuel 1 + sum(length arg + 2) the result is Ok - termination, no access outside argv / the '
+              'strings incl. terminator / table / targets / own arrays - and bad_opts = (start + number of CHECK_BADs) mod 256, without '
+              'wrap when the handler does not return and the limit is < 255); C08_bool_mask_only (whole parse: bits outside the masks '
+              'of the boolean options aimed at a target, and targets of other kinds no option is aimed at, are unchanged) and '
+              'C08_handle_boolean_exact (one option: old|mask, old&~mask or untouched, nothing else written); C08_parse_round_trip (all '
+              'tables, all spelling lists meeting the decidable side conditions sps_ok, all four {preparse, remove_args} settings: '
+              'parse(render sps) returns normally with targets = ideal reading, no bad option, argv = prog :: words ++ NULL under '
+              'removal and untouched otherwise) for ALL ten spelling kinds (-x, -xyz, -xV, -x V, --l, --l=V, --l V, --l WORD, '
+              'arglist-rest, word incl. lone "-"); C08_parse_twice_round_trip for the pre-parse + normal sequence. Not covered by the '
+              'round trip: abstract options written without a value (whether the next word is taken depends on is_valid_option), '
+              '-lVALUE for argument lists, options with several type bits; parse_total_safe is for one call (the two-call sequence is '
+              'tested, not proved safe). Decided by the correspondence check only: that the model mirrors src/options.c (extracted '
+              'OCaml model vs ASan/UBSan build on exhaustively enumerated argument vectors over a token alphabet, five tables, all '
+              'settings, two-pass sequence; spelling lists rendered and compared with the extracted `ideal`), word splitting of '
+              '--list=VALUE (spiftool_num_words/get_word sub-models, owned by C12), strtol, the deprecation warning path. Constants '
+              '(flag bits, masks, boolean words, counter width) are regenerated from the headers on every run (C08_source_shape).'),
         design_ref='DESIGN.md section 7, C08')
 
     # ------------------------------------------------------------------------------
@@ -146,8 +165,6 @@ class C08(vlib.PropertyCheck):
         for n in range(0, n_core + 1):
             for toks in itertools.product(CORE, repeat=n):
                 for (pre, rm) in passes:
-                    if n == n_core and not quick and rng.random() < 0.5:
-                        continue
                     cases.append(self.case(rng, 'main', toks, pre, rm))
         # 2. exhaustive length <= 2 over the full alphabet, every table; two-pass sequence included
         full = CORE + MORE
@@ -158,6 +175,11 @@ class C08(vlib.PropertyCheck):
                         continue
                     pre, rm = rng.choice(passes + [(2, 0), (2, 1)])
                     cases.append(self.case(rng, tname, toks, pre, rm))
+        if not quick:
+            # thorough: every vector of three tokens over the full alphabet, main table
+            for toks in itertools.product(full, repeat=3):
+                pre, rm = rng.choice(passes + [(2, 1)])
+                cases.append(self.case(rng, 'main', toks, pre, rm))
         # 3. exhaustive over the mini alphabet: length 4 (quick) / 5 (thorough), other tables too
         n_mini = 4 if quick else 5
         for toks in itertools.product(MINI, repeat=n_mini):
